@@ -36,6 +36,9 @@ pub enum Op {
     Pop { c: usize, key: usize, right: bool },
     /// RPUSH key e and LPOP key pipelined in one write by the same client
     Batch { c: usize, key: usize },
+    /// pushes to two different keys pipelined in one write (both keys become ready in the same
+    /// event-loop round)
+    PushPush { c: usize, key: usize, right: bool },
     Wait { ms: u32 },
     /// keeps the single-threaded server busy (the SLEEP test command on the control connection):
     /// every deadline that passes meanwhile is met by one and the same timeout sweep
@@ -57,6 +60,7 @@ fn op() -> BoxedStrategy<Op> {
             .prop_map(|(c, right, key, n, via)| Op::Push { c, right, key, n, via }),
         2 => (0..NCLIENTS, 0..3usize, any::<bool>()).prop_map(|(c, key, right)| Op::Pop { c, key, right }),
         1 => (0..NCLIENTS, 0..3usize).prop_map(|(c, key)| Op::Batch { c, key }),
+        2 => (0..NCLIENTS, 0..3usize, any::<bool>()).prop_map(|(c, key, right)| Op::PushPush { c, key, right }),
         1 => prop_oneof![Just(30u32), Just(120u32), Just(450u32)].prop_map(|ms| Op::Wait { ms }),
         1 => prop_oneof![Just(300u32), Just(700u32)].prop_map(|ms| Op::Stall { ms }),
         1 => (0..NCLIENTS).prop_map(|c| Op::Disconnect { c }),
@@ -435,6 +439,42 @@ fn run_history(server: &mut Server, ops: &[Op]) -> CaseResult {
                     s.expect_served(due, &after)?;
                     s.expect_silence(&after)?;
                 }
+                Op::PushPush { c, key, right } => {
+                    let k1 = *key;
+                    let k2 = (*key + 1) % 3;
+                    let name = if *right { "RPUSH" } else { "LPUSH" };
+                    let e1 = s.fresh(1).pop().unwrap();
+                    let e2 = s.fresh(2);
+                    s.pushed += 3;
+                    let (b1, b2) = (s.lists[k1].len(), s.lists[k2].len());
+                    if !s.queues[k1].is_empty() && !s.queues[k2].is_empty() {
+                        s.labels.insert("two-keys-with-waiters-ready-in-one-round");
+                    }
+                    let mut w = encode_cmd(&[name.as_bytes(), KEYS[k1].as_bytes(), &e1]);
+                    w.extend(encode_cmd(&[name.as_bytes(), KEYS[k2].as_bytes(), &e2[0], &e2[1]]));
+                    let actor = if s.blocked[*c].is_some() { &mut s.ctl } else { &mut s.clients[*c] };
+                    let _ = actor.send_raw(&w);
+                    let r1 = actor.reply();
+                    let r2 = actor.reply();
+                    if r1 != Reply::Frame(Frame::Int(b1 as i64 + 1)) || r2 != Reply::Frame(Frame::Int(b2 as i64 + 2)) {
+                        return fail("push-reply", format!("{}: the pushes must reply {} and {}, got {:?} and {:?}", after, b1 + 1, b2 + 2, r1, r2));
+                    }
+                    if *right {
+                        s.lists[k1].push_back(e1);
+                        s.lists[k2].push_back(e2[0].clone());
+                        s.lists[k2].push_back(e2[1].clone());
+                    } else {
+                        s.lists[k1].push_front(e1);
+                        s.lists[k2].push_front(e2[0].clone());
+                        s.lists[k2].push_front(e2[1].clone());
+                    }
+                    // a client waiting on both keys is served from the key that became ready first
+                    let mut due = s.serve(k1);
+                    due.extend(s.serve(k2));
+                    s.barrier()?;
+                    s.expect_served(due, &after)?;
+                    s.expect_silence(&after)?;
+                }
                 Op::Wait { ms } => {
                     std::thread::sleep(Duration::from_millis(*ms as u64));
                     s.settle(Duration::ZERO)?;
@@ -548,6 +588,7 @@ fn op2j(o: &Op) -> Value {
         Op::Push { c, right, key, n, via } => json!({"op": "push", "c": c, "right": right, "key": key, "n": n, "via": via}),
         Op::Pop { c, key, right } => json!({"op": "pop", "c": c, "key": key, "right": right}),
         Op::Batch { c, key } => json!({"op": "batch", "c": c, "key": key}),
+        Op::PushPush { c, key, right } => json!({"op": "pushpush", "c": c, "key": key, "right": right}),
         Op::Wait { ms } => json!({"op": "wait", "ms": ms}),
         Op::Stall { ms } => json!({"op": "stall", "ms": ms}),
         Op::Disconnect { c } => json!({"op": "disconnect", "c": c}),
@@ -562,6 +603,7 @@ fn j2op(v: &Value) -> Option<Op> {
         "push" => Op::Push { c: u("c") % NCLIENTS, right: b("right"), key: u("key") % 3, n: u("n").max(1), via: u("via") as u8 },
         "pop" => Op::Pop { c: u("c") % NCLIENTS, key: u("key") % 3, right: b("right") },
         "batch" => Op::Batch { c: u("c") % NCLIENTS, key: u("key") % 3 },
+        "pushpush" => Op::PushPush { c: u("c") % NCLIENTS, key: u("key") % 3, right: b("right") },
         "wait" => Op::Wait { ms: u("ms") as u32 },
         "stall" => Op::Stall { ms: u("ms") as u32 },
         "disconnect" => Op::Disconnect { c: u("c") % NCLIENTS },
@@ -712,7 +754,7 @@ pub fn run(tier: Tier, seed: u64, replay: Option<Value>) -> i32 {
         tier,
         seed,
         "exploration",
-        "A: generated histories (3..25 operations) of four clients over three lists: BLPOP/BRPOP on 1-3 keys with timeout forever/0.06/0.2/0.4/1 s, LPUSH/RPUSH of 1, 2 or 4 unique elements sent directly, inside MULTI/EXEC or from a script, LPOP/RPOP, a pipelined RPUSH+LPOP batch, waits, stalls of the single-threaded server (so that several deadlines are met by one timeout sweep), and disconnects of blocked clients; operations are sequenced (two PING round trips on a control connection after each), finite deadlines nearer than 150 ms are waited out before the next operation, so a reference model of Redis' blocking semantics decides every reply: served first-blocked-first with the head (BLPOP) or tail (BRPOP) of the first non-empty key, within 4 s; nil never before the timeout on the harness clock and within 4 s after it; never nil for an infinite wait; nothing for a client to whom nothing is due; LRANGE of every list equals pushed minus delivered after every step; wind-down: all waiters are served by pushes, later pushes stay in their lists, every client answers PING, a later BLPOP runs its full timeout. B: unsequenced bursts (3 pushers, 5 blocking poppers, one of which disconnects while blocked) with the schedule-independent oracle only: no element delivered twice or invented, at most one element unaccounted for per disconnect. Non-trivial (A) = a client actually blocked and was served by a later push, timed out, registered on several keys, shared a multi-element push with another waiter, or disconnected while blocked; distinct by hash of the history",
+        "A: generated histories (3..25 operations) of four clients over three lists: BLPOP/BRPOP on 1-3 keys with timeout forever/0.06/0.2/0.4/1 s, LPUSH/RPUSH of 1, 2 or 4 unique elements sent directly, inside MULTI/EXEC or from a script, LPOP/RPOP, a pipelined RPUSH+LPOP batch, pushes to two different keys pipelined in one write, waits, stalls of the single-threaded server (so that several deadlines are met by one timeout sweep), and disconnects of blocked clients; operations are sequenced (two PING round trips on a control connection after each), finite deadlines nearer than 150 ms are waited out before the next operation, so a reference model of Redis' blocking semantics decides every reply: served first-blocked-first with the head (BLPOP) or tail (BRPOP) of the first non-empty key, within 4 s; nil never before the timeout on the harness clock and within 4 s after it; never nil for an infinite wait; nothing for a client to whom nothing is due; LRANGE of every list equals pushed minus delivered after every step; wind-down: all waiters are served by pushes, later pushes stay in their lists, every client answers PING, a later BLPOP runs its full timeout. B: unsequenced bursts (3 pushers, 5 blocking poppers, one of which disconnects while blocked) with the schedule-independent oracle only: no element delivered twice or invented, at most one element unaccounted for per disconnect. Non-trivial (A) = a client actually blocked and was served by a later push, timed out, registered on several keys, shared a multi-element push with another waiter, or disconnected while blocked; distinct by hash of the history",
     ));
     let mk = |_: usize| Server::start(ServerOpts::default());
     if let Some(r) = replay {
